@@ -24,7 +24,8 @@ def gen_cases(rng, tier):
             ycols = [[hx(float((3 * i + 7 * j) % 11) - 4.0, scalar) for i in range(rows)] for j in range(cols)]
             ops.append(["obs", rows, ycols])
         if wlen is not None:
-            ops.append(["weights", [hx(0.5 + 0.25 * i, scalar) for i in range(wlen)]])
+            # weights of both signs (a weight is a number, not a magnitude: the weighted data are w_i * y_is, sign included)
+            ops.append(["weights", [hx((0.5 + 0.25 * i) * (-1.0 if i % 3 == 1 else 1.0), scalar) for i in range(wlen)]])
         if eps is not None:
             ops.append(["eps", hx(eps, scalar)])
         if reps:
